@@ -23,7 +23,7 @@ def project(strings, idx, namespaces):
         e.append(["dup", S(order[0])])
         e.append(["g", {"t": "map", "e": [["s", S(order[min(1, n - 1)])], ["t", S([tag, "g"])],
                                           ["h", {"t": "map", "e": [["u", S(order[0])], ["v", S([tag, "h"])]]}]]}])
-        e.append(["fk", S(["DOL", "t", "LP"] + (["n", "1", "COLON"] if namespaces else []) + list("k0001") + ["RP", "x"])])
+        e.append(["fk", S(["DOL", "t", "LP"] + (["z", "z", "COLON"] if namespaces else []) + list("k0001") + ["RP", "x"])])
         e.append(["p_one", S([tag, "o", "n", "e"])])
         e.append(["p_other", S([tag, "m", "LB", "LB", "c", "o", "u", "n", "t", "RB", "RB", "m"])])
         return {"t": "map", "e": e}
@@ -35,12 +35,98 @@ def project(strings, idx, namespaces):
     de = loc(rot, "f")
     if namespaces:
         small = {"t": "map", "e": [["z", S(strings[0])], ["y", S(["n", "2"])]]}
-        files = [["en/n1", en], ["fr/n1", fr], ["de/n1", de], ["en/n2", small], ["fr/n2", small], ["de/n2", small]]
-        cfg = {"default": "en", "locales": ["en", "fr", "de"], "namespaces": ["n1", "n2"]}
+        # declared in non-alphabetical order: anything keyed by namespace must not rely on sorted order
+        files = [["en/zz", en], ["fr/zz", fr], ["de/zz", de], ["en/aa", small], ["fr/aa", small], ["de/aa", small]]
+        cfg = {"default": "en", "locales": ["en", "fr", "de"], "namespaces": ["zz", "aa"]}
     else:
         files = [["en", en], ["fr", fr], ["de", de]]
         cfg = {"default": "en", "locales": ["en", "fr", "de"]}
     return {"family": "strings", "abs": {"names": names, "values": strings, "namespaces": namespaces}, "cfg": cfg, "files": files}
+
+
+SERVERFN_MAIN = r"""#![allow(warnings)]
+leptos_i18n::load_locales!();
+use i18n::*;
+use leptos_i18n::Locale as _;
+
+fn esc(s: &str) -> String {
+    let mut o = String::new();
+    for c in s.chars() {
+        match c {
+            '"' => o.push_str("\\\""),
+            '\\' => o.push_str("\\\\"),
+            c if (c as u32) < 0x20 => o.push_str(&format!("\\u{:04x}", c as u32)),
+            c => o.push(c),
+        }
+    }
+    o
+}
+
+fn main() {
+    std::panic::set_hook(Box::new(|_| {}));
+    let _ = any_spawner::Executor::init_futures_executor();
+    for locale in Locale::get_all().iter().copied() {
+        for (unit, id) in [__UNITS__] {
+            let r = std::panic::catch_unwind(|| {
+                // what the server answers, then what the client does with the answer
+                let answer = futures::executor::block_on(locale.request_translations(id)).map_err(|e| e.to_string())?;
+                let json = serde_json::to_string(&answer).map_err(|e| e.to_string())?;
+                let received: Vec<Box<str>> = serde_json::from_str(&json).map_err(|e| e.to_string())?;
+                Ok::<_, String>(received)
+            });
+            match r {
+                Ok(Ok(v)) => println!("{{\"locale\":\"{}\",\"unit\":\"{}\",\"outcome\":\"Ok\",\"strings\":[{}]}}", locale.as_str(), unit,
+                                      v.iter().map(|s| format!("\"{}\"", esc(s))).collect::<Vec<_>>().join(",")),
+                Ok(Err(e)) => println!("{{\"locale\":\"{}\",\"unit\":\"{}\",\"outcome\":\"Err\",\"strings\":[]}}", locale.as_str(), unit),
+                Err(_) => println!("{{\"locale\":\"{}\",\"unit\":\"{}\",\"outcome\":\"Panic\",\"strings\":[]}}", locale.as_str(), unit),
+            }
+        }
+    }
+}
+"""
+
+
+def run_serverfn(run, projects, wd, cases_path, load_trace, nplain, nns):
+    """third exporter: the server function answering lazy-loading clients (dynamic_load + ssr)"""
+    import probe
+    plain = [c for c in projects if not c["abs"]["namespaces"]][:nplain]
+    nsd = [c for c in projects if c["abs"]["namespaces"]][:nns]
+    chosen = plain + nsd
+    probes = []
+    for c in chosen:
+        units = '("zz", I18nTranslationUnitsId::zz), ("aa", I18nTranslationUnitsId::aa)' if c["abs"]["namespaces"] else '("none", ())'
+        probes.append({"name": "c11s%03d" % c["id"], "cfg": c["cfg"], "files": c["files"], "main": SERVERFN_MAIN.replace("__UNITS__", units)})
+    saved = probe.FEATURES
+    probe.FEATURES = ['"json_files"', '"icu_compiled_data"', '"cookie"', '"ssr"', '"dynamic_load"', '"plurals"']
+    try:
+        results, log = probe.build_and_run(run, probes, tag="_c11")
+    finally:
+        probe.FEATURES = saved
+    trace = []
+    for c, p in zip(chosen, probes):
+        r = results[p["name"]]
+        if not r["built"]:
+            run.violation("serverfn-build;namespaces=%s" % c["abs"]["namespaces"], "project does not compile with dynamic_load + ssr", {"build_log": r["build_log"] or log[-3000:]})
+            continue
+        n_units = 2 if c["abs"]["namespaces"] else 1
+        if len(r["events"]) != 3 * n_units:
+            raise vp.ToolError("probe %s printed %d of %d answers (rc=%s, %s)" % (p["name"], len(r["events"]), 3 * n_units, r.get("rc"), r.get("stderr", "")[-300:]))
+        for ev in r["events"]:
+            trace.append({"ev": "ServerFn", "case": c["id"], "locale": ev["locale"], "unit": ev["unit"], "outcome": ev["outcome"],
+                          "strings": [probe.to_syms(s) for s in ev["strings"]]})
+    trace.append({"ev": "End"})
+    tpath = os.path.join(wd, "serverfn_trace.ndjson")
+    vp.write_ndjson(tpath, trace)
+    summary, rejects, _ = vp.trace_validate("Trace_Strings", "Trace_Strings.cfg", wd, tpath, cases_path, env={"LOADTRACE": load_trace})
+    if summary["consumed"] != summary["events"]:
+        raise vp.ToolError("trace spec consumed %s of %s events" % (summary["consumed"], summary["events"]))
+    run.traces += len(probes)
+    run.events += summary["events"]
+    for rj in rejects:
+        ev = trace[rj["l"] - 1]
+        run.violation("serverfn;namespaces=%s;unit=%s;locale=%s;%s" % (projects[ev["case"] - 1]["abs"]["namespaces"], ev["unit"], ev["locale"], sorted(rj["tags"])[0].split(":")[0]),
+                      "the table served for lazy loading differs from the table the accessors index", {"event": loadfam._shrink(ev), "tags": sorted(rj["tags"])})
+    return len(trace) - 1
 
 
 def check(run):
@@ -91,12 +177,13 @@ def check(run):
         run.violation("strings;%s;chars=%s" % (",".join(kinds), ",".join(chars)), "case %d tags %s" % (r["case"], tags[:6]),
                       {"case": loadfam._shrink(c, 60000), "tags": tags[:50], "event": loadfam._shrink(builds.get(r["case"])),
                        "dir": os.path.join(wd, "p%05d" % r["case"])})
+    run.notes["serverfn_answers"] = run_serverfn(run, projects, wd, cases_path, load_trace, 1 if quick else 4, 1 if quick else 4)
     run.samples = [{"strings": projects[0]["abs"]["values"][:5]}]
     run.exhaustive = True
     run.notes["strings"] = len(strings)
     run.assumptions = ["every string of at most MaxLen characters over {a, quote, backslash, newline, U+0001, U+00A0, U+200B, U+1F600, U+2028}",
                        "each project also has duplicated strings, nested subkeys, a foreign key and a plural so that indices are shared, nested and reached through substitution; every third project uses namespaces",
-                       "the table baked into generated code is observed by the L2 probe check"]
+                       "three exporters are compared with the table the parser built (whose per-literal indices are validated): the build helper's files, and - for a sample of projects compiled with dynamic_load + ssr - the answer of the generated server function Locale::request_translations, decoded the way the client decodes it; namespaces are declared in non-alphabetical order"]
     return run.finish("all strings of the bounded alphabet, ~60 per project; non-trivial: strings with a character that needs escaping or is non-ASCII",
                       {"distinct_nontrivial": sum(1 for s in strings if any(x != "a" for x in s))})
 
